@@ -183,12 +183,22 @@ def verify(unit, seed=None, rlimit=None, canary=True, keep=True):
     t0 = time.time()
     tpl = load_template(unit)
     template._inline_allow.clear()
+    template._inline_all[0] = False
     path = os.path.join(WORK, unit, '%s.rs' % unit)
     for attempt in (0, 1, 2):
         try:
             gen, info = template.generate(tpl, canary=False)
         except AnchorLost as e:
-            return dict(unit=unit, status='undecided', reason='anchor lost: %s' % e, failures=[], obligations=[], info=None, wall_s=time.time() - t0)
+            if not template._inline_all[0]:
+                # a statement a rewrite rule is keyed on may have moved into a private helper: splice helpers in, once
+                template._inline_all[0] = True
+                try:
+                    gen, info = template.generate(tpl, canary=False)
+                except AnchorLost:
+                    template._inline_all[0] = False
+                    return dict(unit=unit, status='undecided', reason='anchor lost: %s' % e, failures=[], obligations=[], info=None, wall_s=time.time() - t0)
+            else:
+                return dict(unit=unit, status='undecided', reason='anchor lost: %s' % e, failures=[], obligations=[], info=None, wall_s=time.time() - t0)
         open(path, 'w').write(gen)
         res = verus.run(path, seed=seed, rlimit=rlimit)
         # rule R3h on demand: a method / associated function of `self` that the unit has no text for (a statement was
